@@ -153,8 +153,14 @@ fn session_indep<T: Pixel>(sh: &mut Shards, c: &Cfg, st: u8, rng: &mut Rng) {
 
 /// a large 4:4:4 frame through the same session; only probed positions are logged (ev = "c09p")
 fn session_big(sh: &mut Shards, c: &Cfg, rng: &mut Rng) {
-    let (w, h) = (701usize, 523usize);
-    let px: Vec<[f32; 3]> = (0..w * h).map(|i| if i % 7 == 0 { let g = rng.unit() as f32; [g, g, g] } else { [rng.unit() as f32, rng.unit() as f32, rng.unit() as f32] }).collect();
+    session_big_wh(sh, c, rng, 701, 523);
+}
+/// the same for any size and subsampling: the picture is constant within each chroma block (the statement's condition for
+/// subsampled images) and differs from block to block; a probed position is logged as <<own luma, chroma of its block>>
+fn session_big_wh(sh: &mut Shards, c: &Cfg, rng: &mut Rng, w: usize, h: usize) {
+    let (bw, bh) = (w >> c.ssx, h >> c.ssy);
+    let blocks: Vec<[f32; 3]> = (0..bw * bh).map(|i| if i % 7 == 0 { let g = rng.unit() as f32; [g, g, g] } else { [rng.unit() as f32, rng.unit() as f32, rng.unit() as f32] }).collect();
+    let px: Vec<[f32; 3]> = if c.ssx == 0 && c.ssy == 0 { blocks } else { (0..w * h).map(|i| blocks[((i / w) >> c.ssy) * bw + ((i % w) >> c.ssx)]).collect() };
     let idx = crate::util::probe_indices(w * h, w, rng);
     let mut s = String::new();
     let _ = write!(s, "\"ev\":\"c09p\",\"cfg\":{},\"st\":16,\"w\":{w},\"h\":{h},\"rgb\":", c.json());
@@ -168,10 +174,11 @@ fn session_big(sh: &mut Shards, c: &Cfg, rng: &mut Rng) {
         let _ = write!(s, ",\"cfgi\":{},\"cfgo\":{},\"wo\":{},\"ho\":{}", cfg_json_of(&yuv.config()), cfg_json_of(&back.config()), back.width(), back.height());
         for (key, y) in [("in", &yuv), ("out", &back)] {
             let pl = [plane_samples(y, 0), plane_samples(y, 1), plane_samples(y, 2)];
-            if pl.iter().any(|p| p.len() != w * h) {
+            if pl[0].len() != w * h || pl[1].len() != bw * bh || pl[2].len() != bw * bh {
                 return Err("shape".to_string());
             }
-            let v: Vec<[u16; 3]> = idx.iter().map(|&i| [pl[0][i], pl[1][i], pl[2][i]]).collect();
+            let cpos = |i: usize| ((i / w) >> c.ssy) * bw + ((i % w) >> c.ssx);
+            let v: Vec<[u16; 3]> = idx.iter().map(|&i| [pl[0][i], pl[1][cpos(i)], pl[2][cpos(i)]]).collect();
             let _ = write!(s, ",\"{key}\":");
             list(&mut s, &v, |o, t| {
                 let _ = write!(o, "[{},{},{}]", t[0], t[1], t[2]);
@@ -194,6 +201,12 @@ pub fn gen_c09(sh: &mut Shards, o: &Opts, indep: bool) -> serde_json::Value {
         for k in 0..(if o.thorough { 40 } else { 8 }) {
             let c = Cfg { mc: MC_STD[k % 7], tc: TC_SUP[(k * 3 + 1) % 14], cp: [1u8, 4, 5, 6, 7, 8, 9, 11, 12, 22][(k * 7) % 10], full: k % 2 == 1, n: [10u8, 16, 8, 12][k % 4], ssx: 0, ssy: 0 };
             session_big(sh, &c, &mut rng);
+            // subsampled pictures of 0.3 .. 4.2 million pixels (row-band splits must keep every row on its own chroma row)
+            if !o.mini && (o.thorough || k < 3) {
+                let (w, h) = [(640usize, 480usize), (1366, 768), (2048, 2050), (1920, 1084)][k % 4];
+                let cs = Cfg { ssx: [1u8, 0, 1, 1][k % 4], ssy: 1, ..c };
+                session_big_wh(sh, &cs, &mut rng, w, h);
+            }
         }
     }
     let subs = [(0u8, 0u8), (1, 0), (1, 1), (0, 1), (2, 0), (2, 2)];
